@@ -540,6 +540,8 @@ def run(ctx):
             extra_oracles.gm_refit_history(ctx, 'C12')
             from .. import extra_oracles2
             extra_oracles2.gm_from_dict_conditional(ctx)
+            from .. import extra_oracles3
+            extra_oracles3.gm_failed_refit(ctx)
         except Exception as ex:       # the oracle itself must never hide the result of the check proper
             ctx.obligation('oracle:extra:raised', False, 'correspondence', repr(ex))
             ctx.violation('oracle:extra:raised:' + type(ex).__name__, 'history/recovery oracle raised ' + repr(ex), {'repro': '# see tools/vf/extra_oracles.py'})
